@@ -253,8 +253,22 @@ pub struct StreamOpts {
     pub upsampling: u32,
     /// encoded ICC stream (output of `icc::write_icc_stream`) to embed; sets want_icc
     pub icc_stream: Option<BitWriter>,
+    /// image has an animation header (needed for `duration`)
+    pub animation: bool,
+    pub duration: u32,
+    /// frame is not the last one
+    pub not_last: bool,
+    pub save_as_reference: u32,
+    /// patch dictionary (output of `patches::write_patches`) and the kPatches frame flag
+    pub patches: Option<BitWriter>,
     /// spline dictionary (output of `patches::write_splines`) and the kSplines frame flag
     pub splines: Option<BitWriter>,
+    /// add an 8-bit alpha extra channel (Modular-coded in the frame's global section; single-group frames)
+    /// with `alpha_bits` bits per sample (0 = no alpha)
+    pub alpha_bits: u32,
+    /// HOSTILE streams only: value written as the transform type (DctSelect) of the first varblock instead of 0
+    /// (DCT8); the coefficient data still describes 8x8 blocks
+    pub hostile_dct_select: Option<i32>,
     /// write a Modular LF frame (lf_level 1, 1/8 size) first and let the VarDCT frame take its LF from it
     /// (flag kUseLfFrame; the LF coefficients are then not coded in the VarDCT frame)
     pub lf_frame: bool,
@@ -900,6 +914,15 @@ impl JpegSpec {
 
     /// General form: see `StreamOpts`.
     pub fn write_codestream_with(&self, o: &StreamOpts) -> Vec<u8> {
+        let (_, mut out, frame) = self.stream_parts(o);
+        out.extend_from_slice(&frame);
+        out
+    }
+
+    /// The image header this spec + options imply, its serialisation, and the frame (preceded by its LF frame when
+    /// `lf_frame` is set).  Frames of several calls with options that imply the same image header can be concatenated
+    /// after one header (animations, reference frame + patched frame).
+    pub fn stream_parts(&self, o: &StreamOpts) -> (crate::headers::ImageHeader, Vec<u8>, Vec<u8>) {
         use crate::headers::*;
         let StreamOpts { ans, filters, epf_iters, canvas, .. } = *o;
         let ycbcr = !o.no_ycbcr;
@@ -915,6 +938,14 @@ impl JpegSpec {
         let (cw, ch) = canvas.map(|c| (c.0, c.1)).unwrap_or((self.w as u32 * up, self.h as u32 * up));
         let mut img = ImageHeader::simple(cw, ch, false, 8);
         img.modular_16bit_buffers = true;
+        if o.animation {
+            img.extra_fields = true;
+            img.animation = Some(AnimationHeader { tps_numerator: 10, tps_denominator: 1, num_loops: 0, have_timecodes: false });
+        }
+        if o.alpha_bits > 0 {
+            assert!(num_groups == 1 && canvas.is_none() && up == 1, "alpha: plain single-group frames only");
+            img.ec_info = vec![ExtraChannelInfo::new(EC_ALPHA, BitDepth::int(o.alpha_bits))];
+        }
         if let Some(icc) = &o.icc_stream {
             img.colour_encoding = ColourEncoding { all_default: false, want_icc: true, ..ColourEncoding::srgb() };
             img.icc_stream = Some(icc.clone());
@@ -932,6 +963,12 @@ impl JpegSpec {
         assert!(!o.lf_frame || (self.samp.is_empty() && up == 1 && canvas.is_none()), "LF frame: plain frames only");
         fh.do_ycbcr = ycbcr;
         fh.upsampling = up;
+        fh.is_last = !o.not_last;
+        fh.duration = o.duration;
+        fh.save_as_reference = o.save_as_reference;
+        if o.patches.is_some() {
+            fh.flags |= FLAG_PATCHES;
+        }
         if !self.samp.is_empty() {
             assert!(ycbcr && self.ncomp == 3, "chroma subsampling needs YCbCr");
             // coded in the codestream's channel order Cb, Y, Cr: 0 = 1x1, 1 = 2x2, 2 = 2x1, 3 = 1x2 samples per MCU
@@ -952,7 +989,8 @@ impl JpegSpec {
         }
         let mut w = BitWriter::new();
         img.write(&mut w, &Sel::default());
-        let mut out = w.finish();
+        let header_bytes = w.finish();
+        let mut out: Vec<u8> = vec![];
         let mut fw = BitWriter::new();
         fh.write(&mut fw, &Sel::default(), &img);
 
@@ -982,6 +1020,9 @@ impl JpegSpec {
         tokenize_channels(&mut lf, 0..3, 1, &tree, &wp, &mut lf_syms);
         let (cw, chh) = ((self.w + 63) / 64, (self.h + 63) / 64);
         let mut meta: Vec<Channel> = vec![Channel::new(cw, chh), Channel::new(cw, chh), Channel::new(nb, 2), Channel::new(bw, bh)];
+        if let Some(v) = o.hostile_dct_select {
+            meta[2].data[0] = v;
+        }
         let mut meta_syms = vec![];
         tokenize_channels(&mut meta, 0..4, 1 + 2, &tree, &wp, &mut meta_syms);
         // raw quantisation matrices for DCT8: channels X (Cb table), Y (luma table), B (Cr table)
@@ -1003,7 +1044,15 @@ impl JpegSpec {
             .collect();
         let mut qm_syms = vec![];
         tokenize_channels(&mut qm, 0..3, 1 + 3, &tree, &wp, &mut qm_syms);
+        // the alpha channel lives in GlobalModular (stream index 0)
+        let mut alpha_syms = vec![];
+        if o.alpha_bits > 0 {
+            let maxv = (1i64 << o.alpha_bits) - 1;
+            let mut a = vec![Channel::from_fn(self.w, self.h, |x, y| (((x * 29 + y * 53 + x * y * 7) % 97) as i64 * maxv / 96) as i32)];
+            tokenize_channels(&mut a, 0..1, 0, &tree, &wp, &mut alpha_syms);
+        }
         let mut all = lf_syms.clone();
+        all.extend_from_slice(&alpha_syms);
         all.extend_from_slice(&meta_syms);
         all.extend_from_slice(&qm_syms);
         let opts = CodeOpts { use_prefix: !ans, cfg: Some(HybridCfg::new(4, 2, 0)), ..Default::default() };
@@ -1014,6 +1063,9 @@ impl JpegSpec {
 
         let mut s = BitWriter::new();
         // LfGlobal
+        if let Some(p) = &o.patches {
+            s.append(p);
+        }
         if let Some(sp) = &o.splines {
             s.append(sp);
         }
@@ -1037,6 +1089,10 @@ impl JpegSpec {
         tcode.write_header(&mut s);
         tcode.write_symbols(&mut s, &tree_syms);
         mcode.write_header(&mut s);
+        if o.alpha_bits > 0 {
+            mhdr.write(&mut s);
+            mcode.write_symbols(&mut s, &alpha_syms);
+        }
         let mut sections: Vec<BitWriter> = vec![];
         if num_groups > 1 {
             sections.push(std::mem::replace(&mut s, BitWriter::new()));
@@ -1167,7 +1223,7 @@ impl JpegSpec {
         for sec in &sections {
             out.extend_from_slice(sec);
         }
-        out
+        (img, header_bytes, out)
     }
 
     /// Container: ftyp, jbrd, jxlc (order selectable).
